@@ -53,9 +53,9 @@ def lit(s):
     return '"' + s.replace("\\", "\\\\").replace('"', '\\"') + '"'
 
 
-def script_for(args, pol, timeout_ms):
+def script_for(args, pol, timeout_ms, stdin_bytes=None):
     lines = ["make c get command(%s)" % lit(VCHILD)] + ["c.arg(%s)" % lit(a) for a in args]
-    lines += ["c.stdin_null()", "c.stdout_%s()" % pol["out"], "c.stderr_%s()" % pol["err"], "c.timeout_ms(%d)" % timeout_ms,
+    lines += ["c.stdin_null()" if stdin_bytes is None else "c.stdin_text(%s)" % lit("i" * stdin_bytes), "c.stdout_%s()" % pol["out"], "c.stderr_%s()" % pol["err"], "c.timeout_ms(%d)" % timeout_ms,
               "make r get c.run()", "shout(r.success())", "shout(r.exit_code())", "shout(r.stdout())", "shout(r.stderr())"]
     return "\n".join(lines) + "\n"
 
@@ -393,9 +393,12 @@ def free_run(rng, idx, big=False):
             bad[s] = True
     plan = {"W": {s: len(content[s]) for s in ("out", "err")}, "pol": {s: ("capture" if pol[s] == "capture" else "discard") for s in ("out", "err")},
             "bad": bad, "code": code, "hang": hang, "cap": cap}
-    req = {"kind": "capture", "src": script_for(args, pol, timeout_ms), "schedule": None,
+    # specs/io/StdinWriter.tla: a child that hangs WITHOUT reading its stdin, while the writer thread still has text to
+    # deliver (more than a pipe holds), must be killed at the deadline all the same
+    stdin_bytes = rng.choice((None, 8, 70000, 262144)) if hang else None
+    req = {"kind": "capture", "src": script_for(args, pol, timeout_ms, stdin_bytes), "schedule": None,
            "policy": {"max_capture_bytes_per_stream": cap, "wait_poll_ms": 1}}
-    return req, {"plan": plan, "content": content, "script": script, "pol": pol, "hang": hang, "big": big}
+    return req, {"plan": plan, "content": content, "script": script, "pol": pol, "hang": hang, "big": big, "stdin_bytes": stdin_bytes}
 
 
 def trace_record(meta, resp, obs):
@@ -568,6 +571,12 @@ def run(tier):
         tool_error = "%d of %d schedules could not be realised (%s): the implementation-shaped layer no longer matches the code" % (n_unreal, len(reqs), dict(unrealised))
 
     # ---- V: free runs, trace validation
+    for cfg, want in (("io/StdinWriter_after.cfg", 0), ("io/StdinWriter_before.cfg", 11)):
+        sw = tlc.run("io/StdinWriter.tla", cfg, workers=2, timeout=300, coverage=False)
+        if sw.timed_out or sw.rc != want:
+            raise common.ToolError("StdinWriter.tla with %s: rc=%s, expected %s (%s)" % (cfg, sw.rc, want, sw.errors[:2]))
+        states += sw.distinct
+        transitions += sw.generated
     nfree = 300 if quick else 2000
     nbig = 40 if quick else 250
     freqs, fmeta = [], {}
@@ -586,7 +595,7 @@ def run(tier):
         obs = observe(resp, meta["content"], meta["hang"])
         fcases.append({"plan": meta["plan"], "obs": obs})
         fown.append((i, meta, resp))
-        if not meta["big"]:
+        if not meta["big"] and meta.get("stdin_bytes") is None:      # (the trace specification has no stdin writer)
             traces.append(trace_record(meta, resp, obs))
             towner.append((i, meta, resp, obs))
     fverdicts, _ = judge(fcases, "v")
